@@ -156,6 +156,38 @@ void compare_events(const char *what)
                 CHECK(!(o[j].kind == 'c' && o[j].p == o[i].p), CL("clear_before_free"), "%s: memory %p was freed before its clear callback ran", what, o[i].p);
 }
 
+// alloc of ZERO bytes: whatever the object held goes first, exactly as for any other size; what the allocation itself
+// does is not pinned down (empty object, or a block of no bytes), so its own blocks are only required to be consistent:
+// every block obtained during the call is either still live and accounted for by the object, or was given back.
+// Returns the blocks born in the call that are still live.
+std::vector<void *> zero_alloc_events(const char *what)
+{
+    std::vector<Ev> o = observed(), rest;
+    std::vector<Ev> want = g_pred;
+    for (auto &e : o) {
+        bool matched = false;
+        for (size_t k = 0; k < want.size(); k++)
+            if (want[k].kind == e.kind && want[k].p == e.p && (e.kind != 'c' || want[k].sz == e.sz)) { want.erase(want.begin() + k); matched = true; break; }
+        if (!matched) rest.push_back(e);
+    }
+    CHECK(want.empty(), CL("events"), "%s of zero bytes: the previous content was not let go as for any other size: observed [%s], expected at least [%s]",
+          what, evstr(o).c_str(), evstr(g_pred).c_str());
+    std::vector<void *> live;
+    for (auto &e : rest) {
+        if (e.kind == 'm') live.push_back(e.p);
+        else if (e.kind == 'f') {
+            auto it = std::find(live.begin(), live.end(), e.p);
+            CHECK(it != live.end(), CL("events"), "%s of zero bytes freed %p, which is neither the previous content nor a block of this call", what, e.p);
+            live.erase(it);
+        } else CHECK(e.kind == 'x', CL("events"), "%s of zero bytes: unexpected event [%s]", what, evstr(rest).c_str());
+    }
+    for (size_t i = 0; i < o.size(); i++)
+        if (o[i].kind == 'f')
+            for (size_t j = i + 1; j < o.size(); j++)
+                CHECK(!(o[j].kind == 'c' && o[j].p == o[i].p), CL("clear_before_free"), "%s: memory %p was freed before its clear callback ran", what, o[i].p);
+    return live;
+}
+
 void audit(int ns, int nw, int nu)
 {
     for (int i = 0; i < ns; i++) {
@@ -199,6 +231,33 @@ void apply(int op, uint8_t a, uint8_t b, int ns, int nw, int nu)
         for (auto &al : A) destroyed_before += al.destroyed;
         if (occupied) pred_drop_owner(sh[i], i);
         sh[i] = -1;
+        if ((b >> 4) == 0xF) {
+            CNT("class.alloc.zero_bytes");
+            LIB(cstl_shared_ptr_alloc(&SP[i], 0, clr ? clr_cb_sh : nullptr));
+            std::vector<void *> live = zero_alloc_events("shared_alloc");
+            void *g;
+            LIB(g = cstl_shared_ptr_get(&SP[i]));
+            TRACE("S%d alloc(0%s)%s -> %s", i, clr ? ", clr" : "", occupied ? " [occupied]" : "", g ? "a block of no bytes" : "empty");
+            if (!g) CHECK(live.empty(), CL("leak"), "shared_alloc of zero bytes left the object empty but kept %zu block(s)", live.size());
+            else {
+                auto it = std::find(live.begin(), live.end(), g);
+                CHECK(it != live.end() && live.size() == 2, CL("events"), "shared_alloc of zero bytes: get() returns %p, the call left %zu live block(s)", g, live.size());
+                live.erase(it);
+                Alloc al;
+                al.serial = g_serial++;
+                al.book = live[0];
+                al.ptr = g;
+                al.size = 0;
+                al.has_clr = clr;
+                al.clr_calls = 0;
+                al.destroyed = al.book_freed = false;
+                al.owners.insert(i);
+                A.push_back(al);
+                sh[i] = (int)A.size() - 1;
+            }
+            begin_op();
+            break;
+        }
         size_t pre = g_pred.size();
         LIB(cstl_shared_ptr_alloc(&SP[i], sz, clr ? clr_cb_sh : nullptr));
         // what the allocator did decides the outcome (faults / limit): read it from the log
@@ -347,6 +406,22 @@ void apply(int op, uint8_t a, uint8_t b, int ns, int nw, int nu)
             un[u] = -1;
         }
         void *priv = &g_priv_tokens[u];
+        if ((b >> 4) == 0xF) {
+            CNT("class.alloc.zero_bytes");
+            LIB(cstl_unique_ptr_alloc(&UP[u], 0, clr ? clr_cb : nullptr, priv));
+            std::vector<void *> live = zero_alloc_events("unique_alloc");
+            void *g;
+            LIB(g = cstl_unique_ptr_get(&UP[u]));
+            TRACE("U%d alloc(0%s) -> %s", u, clr ? ", clr" : "", g ? "a block of no bytes" : "empty");
+            if (!g) CHECK(live.empty(), CL("leak"), "unique_alloc of zero bytes left the object empty but kept %zu block(s)", live.size());
+            else {
+                CHECK(live.size() == 1 && live[0] == g, CL("events"), "unique_alloc of zero bytes: get() returns %p, the call left %zu live block(s)", g, live.size());
+                UA.push_back({g_serial++, g, clr, priv, 0, false});
+                un[u] = (int)UA.size() - 1;
+            }
+            begin_op();
+            break;
+        }
         LIB(cstl_unique_ptr_alloc(&UP[u], sz, clr ? clr_cb : nullptr, priv));
         std::vector<Ev> o = observed();
         bool ok = false;
